@@ -71,7 +71,9 @@ func cliCheck(bin, dir string, c secretCase, only int) (fails []failure, ran int
 		ref, _ := runCLI(bin, dir, placeholder(c), m)
 		for _, s := range secrets(c) {
 			if strings.Contains(out, s) && !strings.Contains(ref, s) {
-				fails = append(fails, failure{Kind: "fail", Key: "cli:" + failureKey(c, s), What: "protected value visible in the output of achcli " + strings.Join(cliArgs(m), " "), Flags: eff, CLI: m, Case: c, Secret: s})
+				// the same key as for describe.File called directly: it is the same masking seen through the binary (a
+				// listed finding stays the listed finding); the flag combination is in the record
+				fails = append(fails, failure{Kind: "fail", Key: failureKey(c, s), What: "protected value visible in the output of achcli " + strings.Join(cliArgs(m), " "), Flags: eff, CLI: m, Case: c, Secret: s})
 			}
 		}
 	}
@@ -106,7 +108,7 @@ func cli(args []string) {
 	}
 	for _, c := range []secretCase{
 		{Class: "account", Value: "5566778899001"}, {Class: "iat-account", Value: "998877665544332211"},
-		{Class: "name", Value: "Bartholomew Featherstone"}, {Class: "corrected", Value: "1918171615141312"},
+		{Class: "name", Value: "Bartholomew Featherstone"}, {Class: "name", Value: "Bartholomew Featherstone", Shape: 1}, {Class: "corrected", Value: "1918171615141312"}, {Class: "corrected", Value: "1918171615141312", Shape: 3},
 		{Class: "enr-account", Value: "7766554433"}, {Class: "enr-ident", Value: "554433221"},
 		{Class: "enr-name", Value: "Featherstone|Bartholomew"}, {Class: "dne-ssn", Value: "443322110"},
 	} {
